@@ -197,6 +197,7 @@ pub fn run(id: &str, tier: &str) -> Report {
         if let Some(c) = cases.last() { rep.sample(json!({"body": c.body, "table": cfg.name()})); }
     }
     if id == "C05" { c05_extra(&mut rep, thorough); }
+    if id == "C02" { c02_real(&mut rep, thorough); }
     rep.exhaustive = true;
     rep.bound_completed = format!("deviations<={bound}, expr depth<={depth}, stmts<={max_stmts}; {completed_tables}/{} intrinsic tables; pools {:?}; {} valuations; difficulties 0-3 where a switch/label occurs", tables.len(), pools, vals.len());
     rep.rule = "E-DFS over G-stmt/G-expr choice sequences (alternative 0 = simplest production, every other alternative costs one deviation); distinct = distinct rendered body text per table; non-trivial = lowering emitted >= 2 instructions or allocated >= 1 scratch register".into();
@@ -341,6 +342,94 @@ fn c05_extra(rep: &mut Report, thorough: bool) {
             let bad: Vec<i32> = picked.iter().copied().filter(|r| !gp[host.name].contains(r)).collect();
             if bad.is_empty() { rep.outcome(&format!("{}:ok", host.name)); }
             else { rep.outcome(&format!("{}:SCRATCH-OUTSIDE-GP", host.name)); rep.fail(format!("C05:{}:scratch-outside-general-purpose-set:{}", host.name, cases2[c].body), json!({"family": "real", "host": host.name, "source": src, "picked": picked, "not_gp": bad})); }
+        }
+    }
+}
+
+
+// ---------------------------------------------------------------------------------------------
+// C02 on real register files: the same generated bodies are compiled as whole files for real games
+// (ANM th12, old ECL th06/th07/th08), the written binary is read back by M2 and executed by M1 with a table
+// built from the game's built-in mapfile data; AstVm runs the source (through the test-language front end).
+
+pub struct RealOut { pub outcome: String, pub failure: Option<Failure>, pub execs: u64, pub nontrivial: bool }
+
+pub fn check_real(host: &crate::c01::Host, host_table: &Table, test_table: &Table, test_mapfile: &str, case: &Case, vals: &[Valuation]) -> RealOut {
+    use crate::drive::{self, CompileOpts, Kind};
+    let mut out = RealOut { outcome: String::new(), failure: None, execs: 0, nontrivial: false };
+    let um = host.user_mapfile();
+    let src = host.wrap(&case.body);
+    let detail = |extra: serde_json::Value| json!({"family": "real", "host": host.name, "body": case.body, "source": src, "info": extra});
+    let c = drive::compile(host.tool, src.as_bytes(), &CompileOpts { mapfiles: vec![&um], ..Default::default() });
+    if let Some(p) = c.panic { out.outcome = "compile-panic".into(); out.failure = Some(Failure { signature: format!("C02:{}:{}", host.name, p.signature()), detail: detail(json!({"panic": p.text})) }); return out; }
+    let Some(bytes) = c.bytes else { out.outcome = "rejected".into(); return out; };
+    if !c.diag.is_empty() { out.outcome = "compiled-with-warnings".into(); return out; }
+    let m2instrs: Vec<crate::m2::Instr> = match host.tool.kind {
+        Kind::Ecl => crate::m2::walk_ecl(&bytes, host.tool.game).map(|w| w.subs.get(0).cloned().unwrap_or_default()).unwrap_or_default(),
+        _ => crate::m2::walk_anm(&bytes, host.tool.game).ok().and_then(|e| e.get(0).and_then(|e| e.scripts.get(0).map(|s| s.instrs.clone()))).unwrap_or_default(),
+    };
+    let header = match host.tool.kind { Kind::Ecl => 12, _ => 8 };
+    let instrs: Vec<truth::llir::RawInstr> = m2instrs.iter().map(|i| truth::llir::RawInstr { time: i.time, opcode: i.opcode, param_mask: i.param_mask, difficulty: i.difficulty, args_blob: i.args.clone(), ..truth::llir::RawInstr::DEFAULTS }).collect();
+    out.nontrivial = instrs.len() >= 2;
+    // source side: the test-language front end gives the AST for AstVm
+    let (ints, floats) = host.regs.unwrap();
+    let map: [(i32, i32); 10] = [(R_A, ints[0]), (R_B, ints[1]), (R_C, ints[2]), (R_D, ints[3]), (R_P, ints[4]), (R_COUNT, ints[5]), (R_X, floats[0]), (R_Y, floats[1]), (R_R, floats[2]), (R_W, floats[3])];
+    let r = catch(|| with_truth(test_mapfile, |truth| {
+        let block = front_end(truth, &case.body, true).map_err(|(s, _)| s.to_string())?;
+        let diffs: Vec<u32> = if case.model.uses_switch { (0..4u32).filter(|&d| case.model.min_switch_len == 0 || (d as usize) < case.model.min_switch_len).collect() } else { vec![0] };
+        let mut runs = vec![];
+        for (vi, val) in vals.iter().enumerate() { for &d in &diffs { runs.push((vi, d, run_astvm(truth, &block.0, val, d))); } }
+        Ok::<_, String>(runs)
+    }));
+    let runs = match r { Ok(Ok(r)) => r, _ => { out.outcome = "source-front-end-rejected".into(); return out; } };
+    let name_of_host_op: BTreeMap<u16, String> = host_table.entries.iter().filter_map(|e| e.name.clone().map(|n| (e.opcode, n))).collect();
+    let name_of_test_op: BTreeMap<u16, String> = test_table.entries.iter().filter_map(|e| e.name.clone().map(|n| (e.opcode, n))).collect();
+    let mentioned: Vec<i32> = map.iter().filter(|(t, _)| case.model.regs.contains(t)).map(|(t, _)| *t).collect();
+    for (vi, d, src_trace) in runs {
+        out.execs += 1;
+        if src_trace.stopped.as_deref().map(|s| s.starts_with("vm-panic")).unwrap_or(false) { continue; }
+        let hval: Valuation = map.iter().filter_map(|(t, h)| vals[vi].get(t).map(|v| (*h, v.clone()))).collect();
+        let m1 = run_m1_ex(host_table, &instrs, &hval, d, header, host.tool.kind == Kind::Ecl);
+        let m1 = match m1 {
+            Err(e) if e.starts_with("UNDEFINED") && src_trace.stopped.is_some() => continue,
+            Err(e) if e.contains("does not know signature letter") || e.contains("unknown opcode") => { out.outcome = "m1-unsupported-instruction".into(); return out; },
+            Err(e) => { out.outcome = "m1-error".into(); out.failure = Some(Failure { signature: format!("C02:{}:m1-error:{}", host.name, case.body), detail: detail(json!({"valuation": vi, "difficulty": d, "error": e, "instrs": fmt_instrs(&instrs)})) }); return out; },
+            Ok(t) => t,
+        };
+        // translate the M1 trace into test-language terms
+        let mut t2 = m1.clone();
+        for c in &mut t2.log { let n = name_of_host_op.get(&c.opcode).cloned().unwrap_or_default(); c.opcode = name_of_test_op.iter().find(|(_, v)| **v == n).map(|(k, _)| *k).unwrap_or(0xFFFF); }
+        t2.regs = map.iter().filter_map(|(t, h)| m1.regs.get(h).map(|v| (*t, v.clone()))).collect();
+        if let Some(diff) = compare_traces(&src_trace, &t2, &mentioned, true) {
+            out.outcome = "mismatch".into();
+            out.failure = Some(Failure { signature: format!("C02:{}:behaviour:{}", host.name, case.body), detail: detail(json!({"valuation": vi, "difficulty": d, "diff": diff, "oracle": "AstVm(source) vs M1(written binary, table from the game's built-in mapfile data)", "instrs": fmt_instrs(&instrs)})) });
+            return out;
+        }
+    }
+    out.outcome = "compiled".into();
+    out
+}
+
+fn c02_real(rep: &mut Report, thorough: bool) {
+    use crate::drive::Kind;
+    let deadline = rep.deadline();
+    let test_table = Table::new(&TableCfg::FULL);
+    let test_mapfile = test_table.mapfile_text(REGS);
+    let vals = valuations();
+    let (cases, _) = gen_cases(&test_table, if thorough { 3 } else { 2 }, 2, 2, 400_000);
+    for host in crate::c01::hosts().into_iter().filter(|h| h.regs.is_some()) {
+        let lang = if host.tool.kind == Kind::Ecl { truth::LanguageKey::Ecl } else { truth::LanguageKey::Anm };
+        let extra: Vec<(u16, &str, &str)> = [("m0", ""), ("mS", "S"), ("mf", "f"), ("mSS", "SS"), ("mSf", "Sf"), ("mfS", "fS"), ("mff", "ff"), ("mSSS", "SSS"), ("mfff", "fff"), ("mSfSf", "SfSf")].iter().enumerate().map(|(i, (n, s))| (host.op_base + i as u16, *n, *s)).collect();
+        let host_table = Table::from_core(host.tool.game, lang, &extra, host.name == "ecl06");
+        let usable: Vec<&Case> = cases.iter().filter(|c| host.has_difficulty || !(c.body.contains("{\"") || crate::c01::has_switch(&c.body))).collect();
+        let results = par_map(&usable, Some(deadline), |_, c| check_real(&host, &host_table, &test_table, &test_mapfile, c, &vals));
+        for (i, r) in results.into_iter().enumerate() {
+            let Some(o) = r else { rep.cap_hit = Some(format!("wall cap in real-language family ({})", host.name)); continue; };
+            rep.evaluations += 1 + o.execs; rep.traces_validated += o.execs; rep.states += 1;
+            rep.outcome(&format!("real:{}:{}", host.name, o.outcome));
+            if o.nontrivial && o.outcome == "compiled" { rep.nontrivial += 1; }
+            if let Some(f) = o.failure { rep.failures.push(f); }
+            if i % 1501 == 0 && o.outcome == "compiled" { rep.sample(json!({"family": "real", "host": host.name, "body": usable[i].body})); }
         }
     }
 }
